@@ -467,6 +467,8 @@ int SimulateZ80::run(int max_cycles, int step)
     printf("Running... Press Ctl-C to break.\n");
   }
 
+  stop_running = false;
+
   while (stop_running == false)
   {
     int cycles_min, cycles_max;
